@@ -38,6 +38,12 @@ func runC03(c *Ctx) {
 	// carry are the ones the application set last: skipping the update is licensed only by a
 	// comparison of every stored field
 	checkChangeDetectionComplete(c, "C03.G change-detection-complete", []string{"pkg/consensus/liskbft.(*API).SetBFTParameters", "pkg/consensus/liskbft.(*API).SetGeneratorKeys"})
+	// the transaction root and the payload size a block is checked with are computed from each
+	// transaction's ID and size: both are recomputed from the content on every way into Init
+	// (an ID that came with the JSON of a posted block must not survive) — the rule of C08.I1
+	c.MinInstances("C03.I1 transaction-id-from-content", c.borrowRule(runC08, "C08", "I1 id-", "C03.I1 transaction-id-from-content", func(k string) bool {
+		return strings.Contains(k, "blockchain.(*Transaction)") || strings.Contains(k, "blockchain.NewTransaction")
+	}), 1)
 	vf := factsOf(verify)
 
 	// ---- V: reject-edge table in verifyBlock
